@@ -102,6 +102,9 @@ func (e *Engine) exec(st *State, fr *Frame, instr ssa.Instruction) []*State {
 				// keep going with the byte (reported once)
 			}
 			set(x, ByteV{Root: s.Root, Idx: s.Lo.Add(idx)})
+			if e.Cfg.Hooks.OnRead != nil {
+				e.Cfg.Hooks.OnRead(e, st, fr, x, s, idx)
+			}
 		default:
 			e.Check(st, fr, x.Pos(), "B-idx", canonExpr(x), false, "unknown indexed value")
 			set(x, e.unk())
@@ -250,6 +253,9 @@ func (e *Engine) exec(st *State, fr *Frame, instr ssa.Instruction) []*State {
 				e.Check(st, fr, x.Pos(), "B-idx", canonExpr(x), good, "string index")
 				if s.Const == nil {
 					set(x, ByteV{Root: s.Root, Idx: s.Lo.Add(idx)})
+					if e.Cfg.Hooks.OnRead != nil {
+						e.Cfg.Hooks.OnRead(e, st, fr, x, s, idx)
+					}
 					break
 				}
 			}
